@@ -152,9 +152,11 @@ def run(ctx: Ctx):
            sample=mask_ok)
 
     # ---- S3 evaluation mode returns the input -----------------------------------------------------------------------
-    for f, test in ((sa, "not training"), (fwd, "not self.training")):
+    for f, flag in ((sa, "training"), (fwd, "self.training")):
         pm = parent_map(f.node)
-        rets = [n for n in own_nodes(f.node) if isinstance(n, ast.Return) and any(u(t) == test and pol for t, pol in guards_of(pm, n))]
+        # returns taken when the flag is false: under `not flag` (true arm) or under `flag` (else arm)
+        rets = [n for n in own_nodes(f.node) if isinstance(n, ast.Return) and any(
+            (u(t) == f"not {flag}" and pol) or (u(t) == flag and not pol) for t, pol in guards_of(pm, n))]
         rd_ = ReachingDefs(f.node)
         ok = len(rets) == 1 and u(rets[0].value) == "feats" and all(d.kind == "param" for d in rd_.defs_of(rets[0].value))
         col.ob("G9", "S3", f"{rel}::{f.qualname}::eval-identity", ok,
@@ -190,7 +192,7 @@ def run(ctx: Ctx):
         return None
 
     paths = PathEnumerator(ev2, exc_edges=False).paths(app.node.body)
-    col.floor("apply_paths", len(paths), 6)
+    col.floor("apply_paths", len(paths), 2)
     bad = None
     sigs = set()
     for p in paths:
@@ -319,13 +321,18 @@ def run(ctx: Ctx):
     col.ob("G12", "S5", f"{rel}::spec_augment_draw_parameters::caps", okcap,
            f"mask-width caps are {capt}; expected floor(min(lengths * proportion, max_time_mask)) and min(max_freq_mask, F)",
            rel, draw.line, sample=capt)
-    numname = None
+    # the count cap: the bound compared with the mask index (an arange) in the 'beyond the allowed number of masks' fill;
+    # decided on the expansion of the width expression, so the index range / the condition may carry names of their own
+    from sa.astutil import oriented as _or
+    from sa.inline import Inliner as _Inl
+    inl_d = _Inl(draw.node)
+    nums = []
     for v in wt:
-        for x in ast.walk(v):
-            if isinstance(x, ast.Compare) and isinstance(x.ops[0], ast.LtE) and "torch.arange" in u(x.comparators[0]):
-                nn_ = _Strip().visit(copy.deepcopy(x.left))
-                numname = u(nn_)
-    nums = [_canon(v, {}) for v in defs_of(draw, numname)] if numname else []
+        for x in ast.walk(inl_d.expand(v)):
+            if isinstance(x, ast.Compare):
+                o_ = _or(x, lambda e: "torch.arange" in u(e))
+                if o_ is not None and o_[0] == "ge":  # index >= count
+                    nums.append(_canon(_Strip().visit(copy.deepcopy(o_[2])), {}))
     col.ob("G12", "S5", f"{rel}::spec_augment_draw_parameters::count-cap", len(nums) == 1 and "num_time_mask_proportion" in nums[0]
            and "num_time_mask" in nums[0] and ".floor()" in nums[0],
            f"the number of time masks is capped by {nums}; expected floor(min(lengths * proportion, num_time_mask))", rel, draw.line)
